@@ -905,9 +905,11 @@ def run(ctx):
         else:
             sig = "blinded mismatch " + ",".join(str(i) for i in sub)
             key = sig
-        if key in seen_b or len(seen_b) >= 4:
+        if key in seen_b:
             continue
         seen_b.add(key)
+        if sum(1 for k in seen_b if not k.startswith("C19 blinded:")) > 4:
+            continue
         ctx.violation("correspondence_mismatch", "Route.BlindedExec.check_bcase",
                       {"case": {x: y for x, y in c.items() if x != "_classes"},
                        "failed_subchecks": {str(i): SUBCHECK.get(i, "?") for i in sub}},
